@@ -111,6 +111,19 @@ CLAIMED = {
             "behaviour by decide. Tied to a == b, b == a, a != b on BSpline/NURBS Curve/Surface/Volume pairs (identical, deep copies, perturbations at 1/2 .. 10 times the tolerance, structural differences) by exact correspondence.",
             "Model = repaired __eq__ (F-19 fixed by a fix: commit after the check reported it with a replay); tolerance = value of 10 ** (-precision) passed to the model by the harness; mixed-precision pairs (asymmetric ==) are compared "
             "with the model but not judged; copy.deepcopy itself is checked by the oracle only."),
+    'C15': ("7/C15",
+            "Lean theorems (22) over the repaired model, for all grid sizes >= 2 and any spacing: vertex ids 0..V-1, every face index < V, faces exactly the two triangles of every cell, F = 2(nu-1)(nv-1), uniform positive "
+            "orientation, area sum = the rectangle's, cell partition, duplicate-free edge list with explicit E, edge incidences (boundary 1, interior 2 in opposite directions), V - E + F = 1, quad mesh, export offsets and blocks, "
+            "STL normal = cross product orthogonal to the edges, stored uv = the sampling parameter; refutation of the pinned size expression for every dividing spacing >= 3. Exact correspondence with TriangularTessellate, "
+            "QuadTessellate, Surface.tessellate, SurfaceContainer, export_obj/off/stl, triangle_normal.",
+            "Trimmed tessellation is not modelled (exact oracle test on rectangular polygonal trims only; spline trims untested); the whole-rectangle point-set tiling is not assembled into one theorem; file syntax and binary STL packing are oracle-only. "
+            "F-15 was reported with a replay and fixed; F-01 and F-15b (container sample size) are recorded findings."),
+    'C20': ("7/C20",
+            "Lean theorems (31) over any linearly ordered field: is_left = 2x2 determinant with sign meaning and affine covariance; wn_poly crossing rule, translation / reversal / start-vertex invariance; ray status characterised "
+            "(COLINEAR iff cross product below tol; with exact magnitude: INTERSECT iff line distance < tol, intersection identity p1 + t1 d1 = p2 + t2 d2, completeness, 2-D always coplanar); voxel in/out test = padded interval test, "
+            "frange termination and coverage, the grid covers the bounding box, filled iff some sampled point inside; find_ctrlpts = indices span-p..span which contain the support of the basis (Cox-de Boor local support). "
+            "Correspondence and exact oracle on ray.intersect, linalg.is_left / wn_poly / convex_hull, voxelize.voxelize, operations.find_ctrlpts plus frange / grid / in-out helpers.",
+            "Hull containment / convexity and wn = inside are oracle-checked only; ray theorems assume the exact square root (the rounded sqrt is passed to the model as an input). Open finding F-20a: use_cubes=True on a flat bounding box never returns."),
     'C03': ("7/C03",
             "Lean theorems over the executable model (any degree, any non-decreasing knot function, any parameter, any ordered field): "
             "linear span search returns the unique half-open interval; binary search (termination included) equals linear search under the tolerance hypothesis that F-17b violates (refuted without it by decide +kernel); A2.2 has p+1 non-negative values summing to 1 and equals the Cox-de Boor "
